@@ -1,10 +1,11 @@
 (* Check/Chk_C18.v -- correspondence checker for C18.
-   One case = one configuration dictionary (after the array conversions: every array field a list),
+   One case = one configuration dictionary (after the array conversions: every array field a list; the number of dimensions each
+   array was given with and the index arrays travel beside it),
    an optional VariableScaler and optional non-linear constraint scales as validation context.  Observations of the real code: the result of
    EnOptConfig.model_validate (canonical fields, or None when it raised a ValidationError), whether
    validating the validated object returns it, the result of validating its dump and the JSON round
    trip of its dump without a context, and the reachability sweep (per pydantic class: fields probed /
-   assignments accepted; arrays probed / writable).  [check_case] runs Model/Config.v [validate] on the
+   assignments accepted; arrays probed / writable).  [check_case] runs Model/Config.v [validate_full] on the
    raw input and compares field by field (reals with Num.close, discrete fields exactly), evaluates the
    canonical-form clauses directly on the observation, compares the re-validated results (dump, JSON) with the first one (the dictionary of the
    validated sub-objects, the second round and the whole dumps are compared by the Python oracle), requires the result of a second spelling of the same dictionary to be
@@ -22,13 +23,15 @@ Record case := {
   k_bad : bool;                             (* the accepted configuration holds NaN/inf where a finite number is required *)
   k_ctx : option scaler;                    (* VariableScaler of the validation context *)
   k_nls : option (list Q);                  (* scales of the non-linear constraint transform of the context *)
+  k_dims : list (string * nat);             (* per array field given: its array type, dimensions of the value given *)
+  k_ix : indices;                           (* the index arrays given *)
   k_raw : config;
-  k_out : option config;                    (* None = ValidationError *)
+  k_out : option (config * indices);        (* None = ValidationError *)
   k_same : bool;                            (* model_validate(validated object), without and with the context, yields a
                                                configuration with the identical dump and leaves the object unchanged *)
-  k_dump : option config;                   (* model_validate(model_dump(round_trip=True)) *)
-  k_json : option config;                   (* model_validate(json.loads(json.dumps(dump))) *)
-  k_spell : option config;                  (* the same dictionary spelled differently (tuples, ndarrays, numpy scalars, enum
+  k_dump : option (config * indices);                   (* model_validate(model_dump(round_trip=True)) *)
+  k_json : option (config * indices);                   (* model_validate(json.loads(json.dumps(dump))) *)
+  k_spell : option (config * indices);                  (* the same dictionary spelled differently (tuples, ndarrays, numpy scalars, enum
                                                members, scalars written out to full length, sections as instances), same context;
                                                the first result again when the case carries no second spelling *)
   k_classes : list (string * (nat * nat));  (* pydantic class, (fields probed, assignments accepted) *)
@@ -81,13 +84,19 @@ Definition class_ok (e : string * (nat * nat)) : bool :=
   | Some c => Bool.eqb (Nat.eqb (snd (snd e)) 0) (final_immutable c)
   end.
 
-Definition revalidated_ok S (first : config) (again : option config) : bool :=
-  match again with Some c => config_close S c first | None => false end.
+Definition revalidated_ok S (first : config * indices) (again : option (config * indices)) : bool :=
+  match again with Some (c, i) => config_close S c (fst first) && indices_eqb i (snd first) | None => false end.
 
 (* a second spelling of the same dictionary gives the very same configuration: identical rationals, not merely close ones
    (theorem C18_spelling_irrelevant: the model's outcome is the same term) *)
-Definition respelled_ok (first : config) (again : option config) : bool :=
-  match again with Some c => equiv c first | None => false end.
+Definition respelled_ok (first : config * indices) (again : option (config * indices)) : bool :=
+  match again with Some (c, i) => equiv c (fst first) && indices_eqb i (snd first) | None => false end.
+
+(* the index arrays of the observation have one entry per variable / objective / non-linear constraint *)
+Definition index_obs (c : config) (i : indices) : bool :=
+  olen_is (length (v_initial (c_vars c))) (i_samplers i)
+  && olen_is (length (c_obj_w c)) (i_obj_filters i) && olen_is (length (c_obj_w c)) (i_obj_estimators i)
+  && olen_is (nonlinear_count c) (i_nl_filters i) && olen_is (nonlinear_count c) (i_nl_estimators i).
 
 (* every field seen holding an ndarray is an array field of the generated table (whose stores and converters the theorems
    C18_arrays_stored_immutable / C18_array_types_converted are about) *)
@@ -96,11 +105,11 @@ Definition array_field_known (p : string * string) : bool :=
 
 Definition check_case (k : case) : bool :=
   negb (k_bad k) &&
-  match validate gen_enums (k_ctx k) (k_nls k) (k_raw k), k_out k with
-  | Ok m, Some o =>
-      config_close (k_S k) o m && canonical_obs o && k_same k
-      && revalidated_ok (k_S k) o (k_dump k) && revalidated_ok (k_S k) o (k_json k)
-      && respelled_ok o (k_spell k)
+  match validate_full gen_enums array_ndims (k_ctx k) (k_nls k) (k_dims k) (k_ix k) (k_raw k), k_out k with
+  | Ok (m, mi), Some (o, oi) =>
+      config_close (k_S k) o m && indices_eqb oi mi && canonical_obs o && index_obs o oi && k_same k
+      && revalidated_ok (k_S k) (o, oi) (k_dump k) && revalidated_ok (k_S k) (o, oi) (k_json k)
+      && respelled_ok (o, oi) (k_spell k)
       && forallb class_ok (k_classes k) && Nat.eqb (snd (k_arrays k)) 0
       && forallb array_field_known (k_array_fields k)
   | Reject, None => true
@@ -114,3 +123,4 @@ Definition mk_lin := Build_linear.
 Definition mk_nonlin := Build_nonlinear.
 Definition mk_config := Build_config.
 Definition mk_scaler := Build_scaler.
+Definition mk_ix := Build_indices.
